@@ -308,7 +308,18 @@ def optrig_n06(st, op):
     return bool(_is_set(op, ("region",)) and op[2][0] == "values" and any(e[0] == "i" and e[1] < 0 for e in op[1][1]))
 
 
-OPTRIG = {"C04-N05": ("sparse", optrig_n05), "C04-N06": ("sparse", optrig_n06), "C04-N03": ("dense", optrig_n03), "C04-N04": ("sparse", optrig_n04), "A-13": ("sparse", optrig_a13), "C04-N01": ("sparse", optrig_n01), "C04-N02": ("sparse", optrig_n02),
+def optrig_n07(st, op):
+    """sparse region assignment of a tensor where an index list precedes an open-stop slice or another index list"""
+    if not (_is_set(op, ("region",)) and op[2][0] == "values"):
+        return False
+    es = op[1][1]
+    for p, e in enumerate(es):
+        if e[0] == "l" and any(q[0] == "l" or (q[0] == "s" and q[2] is None) for q in es[p + 1:]):
+            return True
+    return False
+
+
+OPTRIG = {"C04-N07": ("sparse", optrig_n07), "C04-N05": ("sparse", optrig_n05), "C04-N06": ("sparse", optrig_n06), "C04-N03": ("dense", optrig_n03), "C04-N04": ("sparse", optrig_n04), "A-13": ("sparse", optrig_a13), "C04-N01": ("sparse", optrig_n01), "C04-N02": ("sparse", optrig_n02),
           "A-14": ("sparse", optrig_a14), "A-15": ("dense", optrig_a15), "A-16": ("dense", optrig_a16),
           "A-17": ("dense", optrig_a17)}
 
